@@ -45,13 +45,13 @@ const (
 	KAny
 	KCellRef
 	KOpaque
-	KAddr  // tlb.MsgAddress (hand-written codec, modelled as TAddr)
-	KEnum  // string-valued Go type with a hand-written tag codec (modelled as a TSum of empty structs)
-	KVoid  // constructor of a union whose payload has no model: never generated, never claimed (listed)
+	KAddr      // tlb.MsgAddress (hand-written codec, modelled as TAddr)
+	KEnum      // string-valued Go type with a hand-written tag codec (modelled as a TSum of empty structs)
+	KVoid      // constructor of a union whose payload has no model: never generated, never claimed (listed)
 	KCellSlice // tlb.VmCellSlice: ^Cell st_bits:(## 10) end_bits:(## 10) st_ref:(#<= 4) end_ref:(#<= 4)
-	KSnake    // tlb.SnakeData / Bytes / Text: rest of the cell continued in a chain of references (extension layer)
-	KLenBytes // tlb.FixedLengthText: W-bit byte count, then the bytes (extension layer)
-	KDictE // tlb.HashmapE[K,V]: Maybe ^(Hashmap n V); the dictionary body is property C05 (opaque cell here)
+	KSnake     // tlb.SnakeData / Bytes / Text: rest of the cell continued in a chain of references (extension layer)
+	KLenBytes  // tlb.FixedLengthText: W-bit byte count, then the bytes (extension layer)
+	KDictE     // tlb.HashmapE[K,V]: Maybe ^(Hashmap n V); the dictionary body is property C05 (opaque cell here)
 )
 
 type Alt struct {
@@ -129,7 +129,32 @@ func ParseSumTag(tag string) (length int, val uint64, ok bool) {
 	return 4 * len(body), v, err == nil
 }
 
-type ctx struct{ stack map[reflect.Type]bool }
+type ctx struct {
+	stack map[reflect.Type]bool
+	// encView: describe what the reflection ENCODER does with the type (tlb.Marshal):
+	// hand-written decoders are ignored, and constructs the encoder rejects for every
+	// value become the empty union (KVoid) instead of making the type opaque
+	encView bool
+}
+
+// DescribeEnc is the encoder view of a type (see ctx.encView).
+func DescribeEnc(t reflect.Type, tag string) *Desc {
+	c := &ctx{stack: map[reflect.Type]bool{}, encView: true}
+	return c.desc(t, tag)
+}
+
+func void(t reflect.Type, why string) *Desc { return &Desc{K: KVoid, Why: why, T: t} }
+
+// rejected: a construct tlb/encoder.go rejects for every value
+func (c *ctx) rejected(t reflect.Type, why string) *Desc {
+	if c.encView {
+		return void(t, why)
+	}
+	return opaque(t, why)
+}
+
+// marshallers whose body is only `return fmt.Errorf("... not implemented")`
+var alwaysErrMarshal = map[string]bool{"BinTree": true, "HashmapAug": true, "ChunkedData": true, "VmCont": true, "VmStkTuple": true}
 
 // Describe describes the encoding of a value of static type t under struct tag `tag`.
 func Describe(t reflect.Type, tag string) *Desc {
@@ -141,7 +166,7 @@ func (c *ctx) desc(t reflect.Type, tag string) *Desc {
 	if t == magicT {
 		l, v, ok := ParseSumTag(tag)
 		if !ok || l == 0 {
-			return opaque(t, "magic without a #/$ tag")
+			return c.rejected(t, "magic without a #/$ tag")
 		}
 		return &Desc{K: KMagic, W: l, Val: v, T: t}
 	}
@@ -250,6 +275,12 @@ func (c *ctx) desc(t reflect.Type, tag string) *Desc {
 		return d
 	}
 	cm, cu := hasCustomMarshal(t), hasCustomUnmarshal(t)
+	if c.encView && cm && t.PkgPath() == tlbPkg && alwaysErrMarshal[genericBase(t)] {
+		return void(t, "MarshalTLB returns 'not implemented': "+t.String())
+	}
+	if c.encView && !cm {
+		cu = false // the encoder walks the type by reflection whatever its decoder is
+	}
 	if cm || cu {
 		side := "both"
 		if cm && !cu {
@@ -303,6 +334,9 @@ func (c *ctx) desc(t reflect.Type, tag string) *Desc {
 					return opaque(t, "unparsable tlbSumType tag on "+f.Name)
 				}
 				in := c.desc(f.Type, "")
+				if in.K == KOpaque && c.encView {
+					return opaque(t, "constructor "+f.Name+": "+in.Why)
+				}
 				if in.K == KOpaque {
 					in = &Desc{K: KVoid, Why: "constructor " + f.Name + ": " + in.Why, T: f.Type}
 				} else {
@@ -310,7 +344,7 @@ func (c *ctx) desc(t reflect.Type, tag string) *Desc {
 				}
 				d.Alts = append(d.Alts, Alt{Name: f.Name, Len: l, Val: v, D: in, Idx: i})
 			}
-			if live == 0 {
+			if live == 0 && !c.encView {
 				return opaque(t, "no constructor has a model")
 			}
 			return d
@@ -330,7 +364,10 @@ func (c *ctx) desc(t reflect.Type, tag string) *Desc {
 		}
 		return d
 	}
-	return opaque(t, "kind "+t.Kind().String())
+	if t.Kind() == reflect.Slice && t.Elem().Kind() == reflect.Uint8 {
+		return opaque(t, "kind slice of bytes")
+	}
+	return c.rejected(t, "kind "+t.Kind().String())
 }
 
 // ---------------------------------------------------------------- printing
